@@ -9,14 +9,18 @@ namespace CE.Cache.Expect
       cache.Load                      — pc init
       wg.Add, cache.LoadOrStore       — pc tryStore; the stored value is the placeholder
       func{ wg.Wait, callReal }       — the placeholder: pc holding (some owner) / waiting
-      defer{ recover, cache.Delete, assignReal func{panic}, wg.Done, panic }
-                                      — failure branch of pc generating (fix e509a33)
+      defer{ recover, cache.Delete, cache.Range func{ cache.Delete }, assignReal func{panic}, wg.Done, panic }
+                                      — failure branch of pc generating (fix e509a33); the Range deletes
+                                        the entries of types built on top of the failed one (pointer to
+                                        it, slice of it, ...: fix for the stale-wrapper defect), which in
+                                        the one-entry model is the same transition `slot := empty`
       assignReal generate             — pc generating
       wg.Done                         — pc doneGen
       cache.Store                     — pc storing -/
 def cacheProtocol : List String :=
   ["cache.Load", "wg.Add", "cache.LoadOrStore", "func{", "wg.Wait", "callReal", "}",
-   "defer{", "recover", "cache.Delete", "assignReal", "func{", "panic", "}", "wg.Done", "panic", "}",
+   "defer{", "recover", "cache.Delete", "cache.Range", "func{", "cache.Delete", "}",
+   "assignReal", "func{", "panic", "}", "wg.Done", "panic", "}",
    "assignReal", "generate", "wg.Done", "cache.Store"]
 
 /-- the structs that carry state from one document to the next, with all their fields (a new
